@@ -151,6 +151,12 @@ pub struct Case {
     pub faults: Vec<FaultRule>,
     /// Source of the sub-choices made inside a case (image sampling, reader ranges).
     pub sel: u64,
+    /// Records for the codec checks (C12).
+    #[serde(default)]
+    pub recs: Vec<crate::model::Rec>,
+    /// Arbitrary byte strings for the decoder (C12).
+    #[serde(default)]
+    pub blobs: Vec<Vec<u8>>,
 }
 
 impl Case {
@@ -379,7 +385,7 @@ pub fn fault_strategy(g: FaultGen) -> BoxedStrategy<Vec<FaultRule>> {
 pub fn case_strategy(p: &Profile) -> BoxedStrategy<Case> {
     let alt = if p.with_alt { cfg_strategy(p).prop_map(Some).boxed() } else { Just(None).boxed() };
     (cfg_strategy(p), vec(op_strategy(p), p.min_ops..=p.max_ops), alt, fault_strategy(p.faults), any::<u64>())
-        .prop_map(|(cfg, ops, alt, faults, sel)| Case { cfg, ops, alt, faults, sel })
+        .prop_map(|(cfg, ops, alt, faults, sel)| Case { cfg, ops, alt, faults, sel, recs: vec![], blobs: vec![] })
         .boxed()
 }
 
@@ -405,5 +411,65 @@ pub fn sample_case() -> Case {
         alt: Some(CfgSpec { max_records: Some(7), ..CfgSpec::simple() }),
         faults: vec![],
         sel: 1,
+        recs: vec![],
+        blobs: vec![],
     }
+}
+
+// ---------------------------------------------------------------------------------------
+// Record generators (C12)
+
+pub fn int_strategy() -> BoxedStrategy<u64> {
+    prop_oneof![
+        Just(0u64),
+        Just(1u64),
+        Just((1u64 << 32) - 1),
+        Just(1u64 << 32),
+        Just((1u64 << 32) + 1),
+        Just(1u64 << 63),
+        Just(u64::MAX),
+        Just(u64::MAX - 1),
+        any::<u64>(),
+        0u64..1000,
+    ]
+    .boxed()
+}
+
+pub fn id_strategy() -> BoxedStrategy<(u64, u64)> {
+    (int_strategy(), int_strategy()).boxed()
+}
+
+pub fn string_strategy() -> BoxedStrategy<String> {
+    prop_oneof![
+        2 => Just(String::new()),
+        4 => "[ -~]{1,24}",
+        3 => "\\PC{1,30}",
+        1 => (1usize..8192, any::<u8>()).prop_map(|(n, c)| {
+            let ch = (b'a' + c % 26) as char;
+            std::iter::repeat(ch).take(n).collect::<String>()
+        }),
+        1 => (1usize..3000).prop_map(|n| "\u{e9}\u{4e2d}\u{1f600}x".chars().cycle().take(n).collect::<String>()),
+    ]
+    .boxed()
+}
+
+pub fn rec_strategy() -> BoxedStrategy<crate::model::Rec> {
+    use crate::model::MState;
+    use crate::model::Rec;
+    let opt_id = || proptest::option::of(id_strategy());
+    prop_oneof![
+        id_strategy().prop_map(Rec::Vote),
+        (id_strategy(), string_strategy()).prop_map(|(i, p)| Rec::Append(i, p)),
+        id_strategy().prop_map(Rec::Commit),
+        opt_id().prop_map(Rec::TruncateAfter),
+        id_strategy().prop_map(Rec::PurgeUpto),
+        (opt_id(), opt_id(), opt_id(), opt_id(), proptest::option::of(string_strategy())).prop_map(|(vote, last, committed, purged, user_data)| Rec::State(MState { vote, last, committed, purged, user_data })),
+    ]
+    .boxed()
+}
+
+pub fn codec_case_strategy(max_recs: usize) -> BoxedStrategy<Case> {
+    (vec(rec_strategy(), 1..=max_recs), vec(vec(any::<u8>(), 0..120), 0..6), any::<u64>())
+        .prop_map(|(recs, blobs, sel)| Case { cfg: CfgSpec::simple(), ops: vec![], alt: None, faults: vec![], sel, recs, blobs })
+        .boxed()
 }
